@@ -286,6 +286,28 @@ func c21Setup(t *testing.T, b *world.Backend, redis bool) (*world.Snap, error) {
 }
 
 func c21One(t *testing.T, c *vcore.Ctx, b *world.Backend, snap *world.Snap, cc *c21Case) {
+	// a counterexample is believed only if it shows again on a second run of the same case (the
+	// system is deterministic; an error swallowed inside the store under overload is not)
+	first := c21Try(t, c, b, snap, cc, 0, true)
+	if len(first) == 0 {
+		return
+	}
+	again := map[string]bool{}
+	for _, v := range c21Try(t, c, b, snap, cc, 0, false) {
+		again[v[0]] = true
+	}
+	for _, v := range first {
+		if again[v[0]] {
+			c.Violate(v[0], v[1], cc)
+		} else {
+			c.Note("not reproduced on the second run, dropped: %s %s", v[0], v[1])
+		}
+	}
+}
+
+// c21Try runs one case and returns the (signature, detail) pairs of what it found; the counters
+// are only touched when count is set.
+func c21Try(t *testing.T, c *vcore.Ctx, b *world.Backend, snap *world.Snap, cc *c21Case, attempt int, count bool) (found [][2]string) {
 	b.Restore(snap)
 	nf := &coretypes.NodeFilter{Podname: cc.Pod, Includes: cc.Includes, Excludes: cc.Excludes, Labels: c21Labels(cc.Labels), All: cc.All}
 	var got []string // multiset of node names the operation acted on
@@ -326,7 +348,17 @@ func c21One(t *testing.T, c *vcore.Ctx, b *world.Backend, snap *world.Snap, cc *
 			}
 		}
 	}, nil)
-	c.Eval()
+	if c24Transient(callErr) && attempt < 4 {
+		// the loopback redis connection timed out on the real clock (overloaded machine): run the case again
+		return c21Try(t, c, b, snap, cc, attempt+1, count)
+	}
+	if c24Transient(callErr) {
+		c.CapHit("transport error of the redis connection (overloaded machine): case skipped")
+		return nil
+	}
+	if count {
+		c.Eval()
+	}
 	sort.Strings(got)
 	want, mustFail := c21Expect(cc)
 	kind := "pod"
@@ -334,7 +366,7 @@ func c21One(t *testing.T, c *vcore.Ctx, b *world.Backend, snap *world.Snap, cc *
 		kind = "include"
 	}
 	viol := func(sig, detail string) {
-		c.Violate("C21/"+kind+"/"+sig, fmt.Sprintf("%s | op=%s expected=%v observed=%v err=%v | case=%s", detail, cc.Op, want, got, errStr(callErr), vcore.JSON(cc)), cc)
+		found = append(found, [2]string{"C21/" + kind + "/" + sig, fmt.Sprintf("%s | op=%s expected=%v observed=%v err=%v | case=%s", detail, cc.Op, want, got, errStr(callErr), vcore.JSON(cc))})
 	}
 	if tr.Deadlock != "" {
 		viol("operation-stuck", firstLine(tr.Deadlock))
@@ -360,15 +392,17 @@ func c21One(t *testing.T, c *vcore.Ctx, b *world.Backend, snap *world.Snap, cc *
 		}
 		nontrivial = len(want) != inPod || cc.All
 	}
-	if nontrivial {
+	if nontrivial && count {
 		c.Nontrivial(vcore.JSON(cc))
 	}
 	res := "ok"
 	if callErr != nil {
 		res = "error"
 	}
-	c.Outcome(fmt.Sprintf("%s/%s/%s/selected=%d", cc.Op, kind, res, len(got)))
-	if nontrivial && callErr == nil && c.WantSample() {
+	if count {
+		c.Outcome(fmt.Sprintf("%s/%s/%s/selected=%d", cc.Op, kind, res, len(got)))
+	}
+	if count && nontrivial && callErr == nil && c.WantSample() {
 		c.Sample(map[string]any{"case": cc, "expected": want, "observed": got})
 	}
 
@@ -400,6 +434,7 @@ func c21One(t *testing.T, c *vcore.Ctx, b *world.Backend, snap *world.Snap, cc *
 			break
 		}
 	}
+	return found
 }
 
 // c21Extra reports nodes acted on that are not in the expected set, or more than once.
